@@ -5,13 +5,35 @@ import shutil
 import sys
 
 VERIF = os.path.dirname(os.path.dirname(os.path.abspath(__file__)))
+MISS = {
+    "C07-r1-2": "needs same-named classes imported from two modules (aliased imports of compound choices); the pipeline pools use one schema / one namespace",
+    "C08-r1-3": "the difference is lxml raising ValueError for the prefix '' inside the C library: behind the SAX seam (the recorded streams stay infoset-equal)",
+    "C08-r2-1": "remove_comments is an option of lxml's C parser: comments never reach the seam",
+    "C09-r2-3": "remove_comments is an option of lxml's C parser: comments never reach the seam",
+    "C10-r1-2": "missed by the quick tier when run; the check now has a document with an object nested below a best-match object (doc holdernest)",
+    "C11-r1-2": "needs a typed model with a wildcard LIST nested inside another model's mixed wildcard followed by tail text: not among the tree shapes",
+    "C12-r1-2": "needs two same-named classes imported from modules whose paths differ in two parts; the graphs use one namespace / one file",
+    "C12-r1-3": "ResourceTransformer's on-disk cache (file I/O, click-dependent CLI route): outside the ordering kernels",
+    "C15-r1-1": "content after the root end tag is a byte-level well-formedness matter handled by expat behind the seam",
+    "C19-r1-2": "the race needs a preemption INSIDE a statement (a list comprehension iterating the shared dict): outside the statement-boundary bound",
+    "C19-r2-1": "needs classes that share an xsi:type name without being related plus a preemption inside list.sort(): outside the statement-boundary bound and the pool",
+    "C19-r2-2": "shared ParserConfig mutated and restored inside UnionNode.bind: only visible to a concurrent FULL parse; C19 lowers the context / XmlVar API only",
+    "C19-r2-3": "from_path / XInclude base_url: file I/O, outside every claim",
+}
 res = {}
-for l in open(sys.argv[1]):
-    if l.startswith("SEEDED "):
-        d = json.loads(l[7:])
-        res[d["dir"]] = d  # last result wins
+for fn in sys.argv[1:]:
+    for l in open(fn):
+        if l.startswith("SEEDED "):
+            d = json.loads(l[7:])
+            if d["dir"] in res:  # later files add checks of further properties (cross-property runs)
+                merged = dict(res[d["dir"]].get("checks", {}))
+                merged.update(d.get("checks", {}))
+                d["checks"] = merged
+            res[d["dir"]] = d
 for src, d in sorted(res.items()):
-    prop, n = src.split("/")[-2].replace("_out", ""), src.split("/")[-1]
+    folder, n = src.split("/")[-2], src.split("/")[-1]
+    prop = folder.split("_")[0]
+    n = ("r2-" if folder.endswith("_out2") else "r1-") + n
     dst = os.path.join(VERIF, "seeded", f"{prop}-{n}")
     ok = d.get("tests_passed") == 263 and not d.get("tests_failed") and d.get("demo_clean_exit") == 0 and d.get("demo_patched_exit") == 1
     if not ok:
@@ -26,5 +48,7 @@ for src, d in sorted(res.items()):
                          "how": "selftest/run_seeded.py: scratch worktree of /repo, git apply patch.diff, repository test suite, demo.py on both trees, bin/check <property> --tier quick with XSDATA_SRC=<patched tree>"}
     meta["checks"] = {p: {"exit": c["exit"], "violation_lines": c["violations"], "first_counterexample": (c["first_counterexamples"] or [None])[0], "harness_errors": c["harness_errors"][:1], "wall_s": c["wall_s"]} for p, c in d.get("checks", {}).items()}
     meta["caught_by"] = [p for p, c in d.get("checks", {}).items() if c["exit"] == 1]
+    if not meta["caught_by"]:
+        meta["miss_reason"] = MISS.get(f"{prop}-{n}", "")
     json.dump(meta, open(os.path.join(dst, "meta.json"), "w"), indent=1)
     print(f"{prop}-{n}", "caught by", meta["caught_by"] or "NONE")
